@@ -14,7 +14,7 @@ import (
 
 const ruleC05 = "stateful: one parsed path (C01 generator, weight on filters with literals and '$'-operands), a pool of 3..5 documents drawn for the same path so that consecutive documents flip the filter verdicts, and a drawn history of <= 8 (thorough <= 16) operations: call(doc i), unrelated Retrieve / Parse with other paths (recycles the pooled buffers), scribble on an earlier result (overwrite + append), force GC (empties sync.Pools). " +
 	"Oracle after each call: (result, error) equals a fresh Retrieve of the same path on that document and equals SPEC; invariant after every operation: every earlier result still deep-equals the private copy taken when it was returned (unless the test scribbled on it) and no two live results share a backing array. " +
-	"Non-trivial: >=2 calls whose outcomes differ and >=1 call after a failing call. Distinct = distinct (path, documents, history)."
+	"Non-trivial: >=2 calls whose outcomes differ and >=1 call after a failing call. Distinct = distinct (path, documents, history). Since round eleven a history may also re-register every function name on the Config the path was parsed with (operation \"rebind\"); calls after it are compared with SPEC and with a fresh Retrieve on an equal Config."
 
 func drawC05(rt *rapid.T) *Case {
 	g := gen.NewG(rt, gen.PathOpts{Funcs: true, FuncPct: 20, FilterHeavy: gen.Uniform(rt, "heavy", 3) > 0, LongPaths: true, RootOmit: true})
